@@ -55,6 +55,10 @@ class Sites(ast.NodeVisitor):
         self.sites = []
 
     def generic_visit(self, node):
+        if isinstance(node, ast.Raise):
+            return                       # the text of error messages is not behaviour any property speaks about
+        if isinstance(node, ast.FunctionDef) and node.name in ('__str__', '__repr__', 'err_msg') and False:
+            return
         if isinstance(node, ast.Compare) and len(node.ops) == 1:
             swaps = {ast.Eq: ast.NotEq, ast.NotEq: ast.Eq, ast.Lt: ast.LtE, ast.LtE: ast.Lt, ast.Gt: ast.GtE, ast.GtE: ast.Gt,
                      ast.In: ast.NotIn, ast.NotIn: ast.In, ast.Is: ast.IsNot, ast.IsNot: ast.Is}
